@@ -103,10 +103,18 @@ void archiveCases(Ctx& ctx, int part)
 		auto sorted = names; std::sort(sorted.begin(), sorted.end(), [](const std::string& a, const std::string& b) { return ref::cmpFold(a, b, true) < 0; });
 		std::vector<ref::VolMember> ms; for (auto& n : sorted) { ref::VolMember m; m.name = n; m.stored = bytesOf("content of " + n); ms.push_back(m); }
 		ref::VolLayout lay; lay.unusedSlots = int(k % 3);
-		mc::writeFile(dir + "/t.vol", ref::encodeVol(ms, lay).bytes);
-		std::string label = "vol {"; for (auto& n : sorted) label += "'" + n + "' "; label += "}";
-		auto o = mc::guarded([&] { Archive::VolFile v(dir + "/t.vol"); archiveLookup(ctx, v, sorted, label, true); });
-		if (o.cls != 'R') ctx.violation("C17/archive/open-throws", label, o.what);
+		// member orders: the conforming (sorted) one, and - lookup must hold for every archive the reader opens - reversed and rotated ones
+		for (int order = 0; order < 3; ++order) {
+			auto mo = ms; auto no = sorted;
+			if (order == 1) { std::reverse(mo.begin(), mo.end()); std::reverse(no.begin(), no.end()); }
+			if (order == 2) { if (mo.size() < 3) continue; std::rotate(mo.begin(), mo.begin() + 1, mo.end()); std::rotate(no.begin(), no.begin() + 1, no.end()); }
+			if (order == 1 && mo.size() < 2) continue;
+			mc::writeFile(dir + "/t.vol", ref::encodeVol(mo, lay).bytes);
+			std::string label = std::string(order == 0 ? "vol {" : order == 1 ? "vol (members in reverse order) {" : "vol (members rotated) {"); for (auto& n : no) label += "'" + n + "' "; label += "}";
+			if (order) ctx.count("archive/unsorted-archives");
+			auto o = mc::guarded([&] { Archive::VolFile v(dir + "/t.vol"); archiveLookup(ctx, v, no, label, true); });
+			if (o.cls != 'R') ctx.violation("C17/archive/open-throws", label, o.what);
+		}
 	}
 	// CLM archives: names up to 8 characters
 	static const std::vector<std::string> tracks = { "a", "B", "ab", "A_1", "abcdefgh", "Z", "b2" };
@@ -115,17 +123,20 @@ void archiveCases(Ctx& ctx, int part)
 		std::vector<std::string> names = i == j ? std::vector<std::string>{ tracks[i] } : std::vector<std::string>{ tracks[i], tracks[j] };
 		if (names.size() == 2 && ref::equalFold(names[0], names[1])) continue;
 		std::sort(names.begin(), names.end(), [](const std::string& a, const std::string& b) { return ref::cmpFold(a, b, true) < 0; });
-		std::vector<std::pair<std::string, std::vector<uint8_t>>> ms; for (auto& n : names) ms.push_back({ n, bytesOf("pcm" + n) });
-		mc::writeFile(dir + "/t.clm", ref::encodeClm(ref::waveFormat(0), ms).bytes);
-		std::string label = "clm {"; for (auto& n : names) label += "'" + n + "' "; label += "}";
-		auto o = mc::guarded([&] { Archive::ClmFile c(dir + "/t.clm"); archiveLookup(ctx, c, names, label, false); });
-		if (o.cls != 'R') ctx.violation("C17/archive/open-throws", label, o.what);
+		for (int order = 0; order < 2; ++order) {
+			if (order == 1) { if (names.size() < 2) break; std::reverse(names.begin(), names.end()); ctx.count("archive/unsorted-archives"); }
+			std::vector<std::pair<std::string, std::vector<uint8_t>>> ms; for (auto& n : names) ms.push_back({ n, bytesOf("pcm" + n) });
+			mc::writeFile(dir + "/t.clm", ref::encodeClm(ref::waveFormat(0), ms).bytes);
+			std::string label = order ? "clm (members in reverse order) {" : "clm {"; for (auto& n : names) label += "'" + n + "' "; label += "}";
+			auto o = mc::guarded([&] { Archive::ClmFile c(dir + "/t.clm"); archiveLookup(ctx, c, names, label, false); });
+			if (o.cls != 'R') ctx.violation("C17/archive/open-throws", label, o.what);
+		}
 	}
 	mc::removeTree(dir);
 }
 
 // ---- (2) resource manager ----
-struct Layout { std::map<std::string, int> place; /* bit0 loose, bit1 v1.vol, bit2 v2.vol */ std::string rootName; };
+struct Layout { std::map<std::string, int> place; /* bit0 loose, bit1 v1.vol, bit2 v2.vol */ std::string rootName; bool unsortedVolumes = false; };
 
 std::string contentOf(const std::string& name, const char* where) { return name + "@" + where; }
 
@@ -145,10 +156,12 @@ void resourceLayout(Ctx& ctx, const Layout& L, const std::string& label)
 	volMembers["v1.vol"]; volMembers["v2.vol"];
 	for (auto& vm : volMembers) {
 		auto names = vm.second; std::sort(names.begin(), names.end(), [](const std::string& a, const std::string& b) { return ref::cmpFold(a, b, true) < 0; });
+		if (L.unsortedVolumes) std::reverse(names.begin(), names.end());
 		std::vector<ref::VolMember> ms; for (auto& n : names) { ref::VolMember m; m.name = n; m.stored = bytesOf(contentOf(n, vm.first == "v1.vol" ? "v1" : "v2")); ms.push_back(m); }
 		mc::writeFile(root + "/" + vm.first, ref::encodeVol(ms).bytes);
 	}
-	mc::writeFile(root + "/music.clm", ref::encodeClm(ref::waveFormat(0), { { "S", bytesOf("pcm-S") }, { "t1", bytesOf("pcm-t1") } }).bytes);
+	if (L.unsortedVolumes) mc::writeFile(root + "/music.clm", ref::encodeClm(ref::waveFormat(0), { { "t1", bytesOf("pcm-t1") }, { "S", bytesOf("pcm-S") } }).bytes);
+	else mc::writeFile(root + "/music.clm", ref::encodeClm(ref::waveFormat(0), { { "S", bytesOf("pcm-S") }, { "t1", bytesOf("pcm-t1") } }).bytes);
 	loose.push_back("v1.vol"); loose.push_back("v2.vol"); loose.push_back("music.clm");
 	std::map<std::string, std::vector<std::string>> archiveMembers = volMembers; archiveMembers["music.clm"] = { "S", "t1" };
 	auto memberContent = [&](const std::string& arch, const std::string& member) { return arch == "music.clm" ? "pcm-" + member : contentOf(member, arch == "v1.vol" ? "v1" : "v2"); };
@@ -272,6 +285,7 @@ void build(Ctx& ctx)
 	for (int a = 0; a < 8; ++a) for (int b = 0; b < 8; ++b) for (int c = 0; c < nc; ++c) for (int s = 0; s < (ctx.thorough ? 2 : 1); ++s) {
 		Layout L; L.place["a.txt"] = a; L.place["B.TXT"] = b; L.place["c.map"] = c; L.place["s"] = ctx.thorough ? (s ? 7 : 2) : ((a * 3 + b) % 8);
 		L.rootName = (a + b + c) % 4 == 0 ? "txt_a_vol_root" : "res";
+		L.unsortedVolumes = ((a ^ b ^ c ^ s) & 1) != 0;
 		gLayouts.push_back(L);
 	}
 }
@@ -285,7 +299,7 @@ void runCase(std::size_t i, Ctx& ctx)
 	std::size_t k = i - 8;
 	for (std::size_t j = k * kLayoutChunk; j < std::min(gLayouts.size(), (k + 1) * kLayoutChunk); ++j) {
 		const Layout& L = gLayouts[j];
-		std::string label = "layout[" + L.rootName + "]";
+		std::string label = "layout[" + L.rootName + (L.unsortedVolumes ? ", volume members in reverse order" : "") + "]";
 		for (auto& p : L.place) label += " " + p.first + ":" + std::string(p.second & 1 ? "L" : "-") + (p.second & 2 ? "1" : "-") + (p.second & 4 ? "2" : "-");
 		resourceLayout(ctx, L, label);
 		ctx.outcome(mc::fnv(label));
